@@ -423,6 +423,19 @@ def optimize_kl(likelihood_energy,
             sl = e.samples.at(mean)
             energy_history.append((iglobal, e.value))
 
+        # Save the histories first, then the samples and last of all the marker:
+        # a resumed run loads all of them for the iteration the marker names.
+        if output_directory is not None and _MPI_master(comm(iglobal)):
+            _pickle_save_values(iglobal, 'energy_history', energy_history)
+            if plot_energy_history:
+                _plot_energy_history(iglobal, energy_history)
+        _barrier(comm(iglobal))
+
+        _minisanity(lh, iglobal, sl, comm, plot_minisanity_history)
+        _barrier(comm(iglobal))
+
+        _counting_report(count, iglobal, comm)
+
         if output_directory is not None:
             _export_operators(iglobal, export_operator_outputs, sl, comm(iglobal))
             sl.save(join(output_directory, "pickle/") + _file_name_by_strategy(iglobal),
@@ -433,15 +446,7 @@ def optimize_kl(likelihood_energy,
                 with open(lfile + ".tmp", "w") as f:
                     f.write(str(iglobal))
                 replace(lfile + ".tmp", lfile)
-                _pickle_save_values(iglobal, 'energy_history', energy_history)
-                if plot_energy_history:
-                    _plot_energy_history(iglobal, energy_history)
         _barrier(comm(iglobal))
-
-        _minisanity(lh, iglobal, sl, comm, plot_minisanity_history)
-        _barrier(comm(iglobal))
-
-        _counting_report(count, iglobal, comm)
 
         _handle_inspect_callback(inspect_callback, sl, iglobal)
         _barrier(comm(iglobal))
